@@ -306,6 +306,7 @@ func VerifK24bTupleSequence() {
 	L := vt.ParamInt("str", 2)
 	N := vt.ParamInt("seq", 2)
 	na, nb := vt.Choose("na", N+1), vt.Choose("nb", N+1)
+	vt.Assume(na <= nb) // the claim is symmetric in the two lists
 	// three tuple shapes: no condition / condition with nil context / condition with a one-field context
 	// (the value kinds of contexts are VerifK24bTupleInjective's and VerifK24bPbValueInjective's subject)
 	gen := func(name string) VerifK24Tuple {
